@@ -269,7 +269,7 @@ Definition tri_unique_min (t : tri) : Prop :=
 (* ------------------------------------------------------------------ *)
 (* the table translate/c04_idioms.py generates: one record per place where
    scheduling order enters a data structure *)
-Inductive site_kind := Combinable | AtomicCursor | AtomicAccumulate | ConcurrentContainer | MutexAppend | TaskGroup.
+Inductive site_kind := Combinable | AtomicCursor | AtomicAccumulate | ConcurrentContainer | MutexAppend | TaskGroup | SortImplementation.
 
 Inductive normalisation :=
 | StableSortTotalKey        (* stable_sort, comparator separates the records: sort_after_combine *)
@@ -281,6 +281,7 @@ Inductive normalisation :=
 | CanonicalRotation         (* Face2Tri + ReorderHalfedges: reorder_halfedges_canonical, named gap *)
 | HeapTotalOrder            (* pop order fixed by a total order with serial numbers *)
 | NoCombine                 (* thread-local scratch that is never combined *)
+| StableMergeBounds         (* parallel.h mergeRec: left pivot splits the right run with lower_bound, right pivot the left run with upper_bound (the stable choice, C13 merge_sort model) *)
 | SequentialPolicy          (* the functor's only call sites pass the literal ExecutionPolicy::Seq: AtomicAdd is a plain add in index order *)
 | Allowed (reason : String.string) (* justified allow-list entry *)
 | Flagged (key : String.string) (* shown schedule dependent by the exploration; key of the violation *)
